@@ -403,6 +403,20 @@ func c05(r *core.Run) {
 	r.Rule("E3", "verbatim error replies: in every error-reply funnel (a function taking an *Error and handing a payload to the reply path) each payload is the json.Marshal output of a value holding that very *Error, or - only on the marshal-failure edge - a static literal; a static literal chosen by the error's code would replace a custom message or data with the generic text", 2)
 	r.Rule("E2", "static outcomes: no-resource and get-without-handler reply with the notFound literal, unknown call/auth method with the methodNotFound literal, a handler that returned without replying reaches the fallback that replies with an internalError literal; literals carry the matching Code* constant", 6)
 
+	r.Rule("M11", "the handler's path parameters carry its own placeholder names (shared with C06.R3): a registration on a node that already has placeholders must present the same names on the same tokens or panic - otherwise whoever registered first (a listener pattern spelling the placeholder differently) decides under which name the handler finds its parameter", 2)
+	if ro := resolveMuxRolesFor(r, "M11"); ro != nil {
+		c06ParamsCompared(r, "M11", ro)
+	}
+	r.Rule("M10", "method requests reach the service (shared with C09.S2): the method wildcard is appended to the call / auth subject of every owned pattern that does not end in the full wildcard - a pattern ending in '*' still needs it (the '*' stands for the last token of the resource name, not for the method), otherwise call.<rid>.<method> matches no subscription and the handler is never invoked", 2)
+	if sub := subscribeFn(p); sub != nil {
+		var blocks []*ssa.BasicBlock
+		for _, h := range p.Helpers(sub) {
+			blocks = append(blocks, h.Blocks...)
+		}
+		c09MethodWildcard(r, "M10", sub, blocks)
+	} else {
+		r.Unres("M10", "subscribe", "not resolved")
+	}
 	r.Rule("M9", "the pattern selected is one that has a handler (shared with C06.R12): every exact-match accept site of the matcher lies behind the non-nil test of the node's handler - a handler-less node on the way to a longer pattern never ends the backtracking, so the less specific pattern that does match still gets the request", 1)
 	r.Rule("M8", "the handler gets the payload that arrived (shared with C07.P10 / C18.V11): no function appends onto a truncated prefix of a slice it was handed - a trace helper shortening a large request payload that way overwrites the message's bytes before they are parsed, so a large request is answered with an error (or decoded params differ) instead of reaching its handler with what the client sent", 1)
 	c07NoAppendIntoForeignPrefix(r, "M8", []string{"", "resprot"})
